@@ -46,7 +46,7 @@ def run(ctx, *, mine, designs, gens, relevant, rule, extra_traces=None, must_hit
                 if other[c] == 1:
                     import os
 
-                    from ..common import VERIF
+                    from ..common import OUT as VERIF
 
                     os.makedirs(os.path.join(VERIF, "replays"), exist_ok=True)
                     t = byid[tid]
